@@ -674,7 +674,7 @@ var degenerateClasses = []string{
 	"pl-absent", "pl-0", "pl-1", "pl-16383", "pl-16385", "pl-2^32-16384", "pl-2^32", "pl-negative",
 	"pieces-20k+1", "pieces-20k-1", "pieces-empty", "pieces-too-few", "pieces-too-many",
 	"flen--1", "flen--2^40", "flen-2^62", "flen-2^63-1", "flen-sum-wraps", "flen-negative-cancels",
-	"length-and-files", "neither-length-nor-files", "length-0", "length-negative",
+	"length-and-files", "neither-length-nor-files", "length-0", "length-negative", "zero-length-consistent", "all-files-empty-consistent",
 	"path-empty-list", "path-missing", "name-absent", "name-empty", "files-empty-list",
 }
 
@@ -735,6 +735,15 @@ func applyDegenerate(t *rapid.T, m *model, c string) {
 	case "length-0":
 		m.single, m.hasFiles, m.files = true, false, nil
 		m.length = int64(0)
+	case "zero-length-consistent":
+		// an empty torrent that is consistent with itself: no bytes, no hashes
+		m.single, m.hasFiles, m.files = true, false, nil
+		m.length = int64(0)
+		m.pieces = []byte{}
+	case "all-files-empty-consistent":
+		m.single, m.length, m.hasFiles = false, nil, true
+		m.files = []mfile{{path: []string{"e0"}, length: 0}, {path: []string{"d", "e1"}, length: 0}}
+		m.pieces = []byte{}
 	case "length-negative":
 		m.single, m.hasFiles, m.files = true, false, nil
 		m.length = int64(-100000)
